@@ -1,7 +1,8 @@
 (** * C15 — Shrink is invisible and convergent.
 
     Proved here (relation-free tier; every state satisfying the storage invariant):
-    - Shrink (unbounded or zero budget) never fails, keeps the invariant, and changes no entity,
+    - on a locked world (open query, running callback) Shrink is rejected without any effect;
+    - on an unlocked world Shrink (unbounded or zero budget) never fails, keeps the invariant, and changes no entity,
       component or value ([content_same]), nor the pool, the entity index, the lock, observers,
       filters, queries, archetypes or the number of tables: so by the storage theorems every later
       operation behaves as if Shrink had not been called;
@@ -24,25 +25,39 @@
 From Ark Require Import Model.Base Model.Mask Model.Pool Model.Util Model.World Model.Run.
 From Ark Require Import Proofs.UtilProofs Proofs.WF Proofs.StorageA Proofs.ResetShrinkProofs Proofs.Rel2Defs Proofs.Rel2Maint Properties.Common.
 
-Theorem C15_shrink_invisible : forall s stop0, St s ->
+(** On a locked world - between the creation of a query and its end, inside removal and batch
+    callbacks - Shrink is rejected and the state is exactly as before: an open query, a cached filter
+    or a batch selection in progress cannot be affected by it. (Repaired defect: World.Shrink had no
+    lock check, freed tables out of the list an open query was walking, and the query skipped an
+    entity; witness TestWitness_C15_ShrinkInsideQuery.) All the statements below are therefore about
+    unlocked worlds, where Shrink runs. *)
+Theorem C15_locked_rejected : forall s stop0, is_locked s = true -> w_shrink stop0 s = Err ELocked s.
+Proof. exact shrink_locked_rejected. Qed.
+
+Theorem C15_shrink_invisible : forall s stop0, St s -> is_locked s = false ->
   exists b s', w_shrink stop0 s = Ok b s' /\ St s' /\ content_same s s' /\ w_pool s' = w_pool s /\
                w_index s' = w_index s /\ side_same s s' /\ frame_user s s' /\ w_archs s' = w_archs s /\
                length (w_tables s') = length (w_tables s).
-Proof. exact shrink_invisible. Qed.
+Proof. exact shrink_invisible_w. Qed.
 
-Theorem C15_capacity_bounds : forall s, St s ->
+Theorem C15_capacity_bounds : forall s, St s -> is_locked s = false ->
   exists s', w_shrink false s = Ok false s' /\
   forall tid t, nth_error (w_tables s') tid = Some t ->
     t_len t <= t_cap t /\ t_cap t <= Nat.max (cf_cap (w_cfg s)) (cap_pow2 (t_len t)).
-Proof. exact shrink_capacity_bounds. Qed.
+Proof. exact shrink_capacity_bounds_w. Qed.
 
-Theorem C15_result_exact : forall s stop0, St s ->
+Theorem C15_result_exact : forall s stop0, St s -> is_locked s = false ->
   exists b s', w_shrink stop0 s = Ok b s' /\ (b = true <-> 0 < shrinkable s').
-Proof. exact shrink_result_exact. Qed.
+Proof. exact shrink_result_exact_w. Qed.
 
-Theorem C15_converges : forall s, St s -> 0 < shrinkable s ->
+Theorem C15_converges : forall s, St s -> is_locked s = false -> 0 < shrinkable s ->
   exists b s', w_shrink true s = Ok b s' /\ shrinkable s' < shrinkable s.
-Proof. exact shrink_converges. Qed.
+Proof. exact shrink_converges_w. Qed.
+
+(** A Shrink that ran leaves the world unlocked, so the next time-boxed call is admissible again. *)
+Theorem C15_keeps_unlocked : forall s stop0 b s', St s -> is_locked s = false ->
+  w_shrink stop0 s = Ok b s' -> is_locked s' = false.
+Proof. exact shrink_keeps_unlocked. Qed.
 
 Theorem C15_cap_pow2 : forall n, 1 <= n -> n <= Nat.pow 2 31 ->
   n <= cap_pow2 n /\ cap_pow2 n < 2 * n /\ (exists k, cap_pow2 n = Nat.pow 2 k) /\
@@ -67,16 +82,16 @@ Example C15_shrink_example :
   end = (false, [(2, 2)]).
 Proof. vm_compute. split; reflexivity. Qed.
 
-Theorem C15_shrink_relation_worlds : forall s stop0, St2 s ->
+Theorem C15_shrink_relation_worlds : forall s stop0, St2 s -> is_locked s = false ->
   exists b s', w_shrink stop0 s = Ok b s' /\ St2 s' /\ content_same s s' /\ r2d_tgt_same s s' /\
     w_pool s' = w_pool s /\ w_index s' = w_index s /\ w_istarget s' = w_istarget s /\ side_same s s' /\ frame_user s s' /\
     length (w_tables s') = length (w_tables s) /\
     (forall j t, nth_error (w_tables s) j = Some t -> exists t', nth_error (w_tables s') j = Some t' /\ r2d_tfree t t') /\
     (stop0 = false -> forall j t', nth_error (w_tables s') j = Some t' -> t_rels t' <> [] -> t_len t' = 0 -> t_free t' = true) /\
     (r2d_KeysLive s -> r2d_KeysLive s').
-Proof. exact D_shrink_spec. Qed.
+Proof. exact D_shrink_spec_w. Qed.
 Definition C15_relation_example := r2d_ex_shrink_by_theorem.
 
-Definition C15_all := (C15_shrink_relation_worlds, C15_relation_example, C15_shrink_invisible, C15_capacity_bounds, C15_result_exact, C15_converges, C15_cap_pow2,
+Definition C15_all := (C15_locked_rejected, C15_keeps_unlocked, C15_shrink_relation_worlds, C15_relation_example, C15_shrink_invisible, C15_capacity_bounds, C15_result_exact, C15_converges, C15_cap_pow2,
   C15_cap_pow2_wraps_beyond_2_31).
 Print Assumptions C15_all.
